@@ -183,3 +183,8 @@ pub fn fresh_cookie_keys() -> ([u8; 8], [u8; 8]) {
     let k = CookieKeys::new();
     (k.current, k.previous)
 }
+
+/// Set how long an upstream TCP connection may stay idle before the resolver closes it.
+pub fn set_tcp_idle_timeout(d: std::time::Duration) {
+    super::outquery::VERIF_TCP_IDLE_MS.store(d.as_millis() as u64, std::sync::atomic::Ordering::Relaxed);
+}
